@@ -146,6 +146,8 @@ static var g_mutex[NMUT];
 static volatile long g_counter[NMUT];
 static volatile int  g_flag[NMUT];
 static atomic_long   g_flagseen[NMUT];
+static atomic_long   g_reentered[NMUT];     /* trylock by the owner reported success */
+static atomic_long   g_free_refused;        /* alone-run: trylock on a Mutex nobody holds reported busy */
 
 static void do_yield(int kind, long count);
 
@@ -376,12 +378,14 @@ static const char* join_program(struct jobspec* s, char* msg, size_t msgn) {
 }
 
 /* ---- lock sections ---------------------------------------------------------------------- */
-static void lock_body(struct tctx* c, long* m, int n, long spin) {
-  for (int i = 0; i < n; i++) {
-    int k = (int)m[2*i];
-    if (g_flag[k]) { atomic_fetch_add(&g_flagseen[k], 1); }
-    g_flag[k] = 1;
-  }
+static bool __attribute__((noinline)) try_via_helper(var mu) { return trylock(mu); }
+
+/* one guarded increment on mutex k, which the caller holds */
+static void section_open(int k) { if (g_flag[k]) { atomic_fetch_add(&g_flagseen[k], 1); } g_flag[k] = 1; }
+
+/* m: (mutex, mode) pairs; x: optional re-entry program {mask over the held mutexes, via helper?, other mutex or -1} */
+static void lock_body(struct tctx* c, long* m, int n, long spin, long* x) {
+  for (int i = 0; i < n; i++) { section_open((int)m[2*i]); }
   for (int i = 0; i < n; i++) {
     int k = (int)m[2*i];
     long v = g_counter[k];
@@ -389,15 +393,43 @@ static void lock_body(struct tctx* c, long* m, int n, long spin) {
     g_counter[k] = v + 1;
     c->incs[k]++;
   }
+  if (x) {
+    /* same-thread re-entry: trylock on a Mutex this thread holds reports busy; if it reports success a second
+     * section on the same Mutex is open while the first one still is */
+    for (int i = 0; i < n; i++) {
+      if (not (x[0] >> i & 1)) { continue; }
+      int k = (int)m[2*i]; var mu = g_mutex[k];
+      bool got = x[1] ? try_via_helper(mu) : trylock(mu);
+      if (got) {
+        atomic_fetch_add(&g_reentered[k], 1);
+        section_open(k);                       /* sees the flag of the section that is still open */
+        unlock(mu);
+      }
+    }
+    /* a Mutex this thread does not hold: trylock may succeed (always when alone), then it is a section of its own */
+    if (x[2] >= 0) {
+      int k = (int)x[2]; bool held = false;
+      for (int i = 0; i < n; i++) { if (m[2*i] is k) { held = true; } }
+      if (not held) {
+        var mu = g_mutex[k];
+        if (x[1] ? try_via_helper(mu) : trylock(mu)) {
+          section_open(k);
+          long v = g_counter[k]; g_counter[k] = v + 1; c->incs[k]++;
+          g_flag[k] = 0;
+          unlock(mu);
+        } else { c->tryfail++; if (not c->concurrent) { atomic_fetch_add(&g_free_refused, 1); } }
+      }
+    }
+  }
   for (int i = 0; i < n; i++) { g_flag[(int)m[2*i]] = 0; }
 }
-static void lock_sec(struct tctx* c, long* m, int n, int i, long spin) {
-  if (i is n) { lock_body(c, m, n, spin); return; }
+static void lock_sec(struct tctx* c, long* m, int n, int i, long spin, long* x) {
+  if (i is n) { lock_body(c, m, n, spin, x); return; }
   var mu = g_mutex[m[2*i]];
   switch ((int)m[2*i+1]) {
-    case 0: lock(mu); lock_sec(c, m, n, i + 1, spin); unlock(mu); break;
-    case 1: if (trylock(mu)) { lock_sec(c, m, n, i + 1, spin); unlock(mu); } else { c->tryfail++; } break;
-    default: with (held in mu) { lock_sec(c, m, n, i + 1, spin); } break;
+    case 0: lock(mu); lock_sec(c, m, n, i + 1, spin, x); unlock(mu); break;
+    case 1: if (trylock(mu)) { lock_sec(c, m, n, i + 1, spin, x); unlock(mu); } else { c->tryfail++; } break;
+    default: with (held in mu) { lock_sec(c, m, n, i + 1, spin, x); } break;
   }
 }
 
@@ -508,7 +540,7 @@ static void do_op(struct tctx* c, struct op* o) {
       break;
     }
     case O_TR: { char kb[16]; snprintf(kb, sizeof kb, "k%ld", a[0]); rem(current(Thread), $S(kb)); break; }
-    case O_LK: lock_sec(c, a + 2, (int)a[1], 0, a[0]); break;
+    case O_LK: lock_sec(c, a + 2, (int)a[1], 0, a[0], o->na >= 2 + 2 * (int)a[1] + 3 ? a + 2 + 2 * a[1] : NULL); break;
     case O_JW: {
       struct jobspec s = { a[0], a[1], a[2], a[3], a[4], a[5], a[6], a[7] }; char msg[160];
       const char* r = join_program(&s, msg, sizeof msg);
@@ -713,6 +745,7 @@ static void parse_op(struct prog* p, char** w, int n) {
         RANGE(o->a[2+2*i], 0, cfg_nmutex); RANGE(o->a[3+2*i], 0, 3);
         if (i and o->a[2+2*i] <= o->a[2*i]) { harness_bug("lk mutexes not in ascending order"); }
       }
+      if (o->na >= 2 + 2 * o->a[1] + 3) { long* x = o->a + 2 + 2 * o->a[1]; RANGE(x[0], 0, 8); RANGE(x[1], 0, 2); RANGE(x[2], -1, cfg_nmutex); }
       break;
     case O_JW: RANGE(o->a[0], 0, 4097); RANGE(o->a[5], 0, 1025); break;
     case O_SB: RANGE(o->a[0], 0, 200); break;
@@ -754,7 +787,8 @@ static void freectx(struct tctx* c) {
 }
 
 static void reset_locks(void) {
-  for (int k = 0; k < NMUT; k++) { g_counter[k] = 0; g_flag[k] = 0; atomic_store(&g_flagseen[k], 0); }
+  for (int k = 0; k < NMUT; k++) { g_counter[k] = 0; g_flag[k] = 0; atomic_store(&g_flagseen[k], 0); atomic_store(&g_reentered[k], 0); }
+  atomic_store(&g_free_refused, 0);
 }
 
 static void check_ledger(struct tctx* c, const char* phase) {
@@ -862,7 +896,10 @@ int main(int argc, char** argv) {
       check_ledger(c, "alone");
       for (int k = 0; k < cfg_nmutex; k++) {
         if (g_counter[k] isnt c->incs[k]) { tbad(c, "alone: counter of mutex %d is %ld after %ld increments", k, (long)g_counter[k], c->incs[k]); }
+        if (atomic_load(&g_reentered[k])) { tbad(c, "alone: trylock on mutex %d by the thread that holds it reported success %ld time(s): two sections open at once", k, (long)atomic_load(&g_reentered[k])); }
+        else if (atomic_load(&g_flagseen[k])) { tbad(c, "alone: in-section flag of mutex %d seen set on entry", k); }
       }
+      if (atomic_load(&g_free_refused)) { tbad(c, "alone: trylock on a mutex nobody holds reported busy %ld time(s)", (long)atomic_load(&g_free_refused)); }
     }
 
     /* 2. all workloads at once */
@@ -986,8 +1023,9 @@ int main(int argc, char** argv) {
         long expect = 0;
         for (int i = 0; i < T; i++) { expect += conc[i]->incs[k]; }
         long seen = (long)atomic_load(&g_flagseen[k]);
-        printf("lock %d counter=%ld expect=%ld flagseen=%ld\n", k, (long)g_counter[k], expect, seen);
-        if (g_counter[k] isnt expect or seen) { failed = true; }
+        long re = (long)atomic_load(&g_reentered[k]);
+        printf("lock %d counter=%ld expect=%ld flagseen=%ld reentered=%ld\n", k, (long)g_counter[k], expect, seen, re);
+        if (g_counter[k] isnt expect or seen or re) { failed = true; }
       }
       for (int k = 0; k < jres_n; k++) { printf("join %d %s\n", k, jres[k]); }
       /* measured overlap */
